@@ -55,7 +55,7 @@ Proof.
   all: try (rewrite (IHa s (bind_defined _ _ Hd)); destruct (denote _ a s) as [[ta ra]| |]; cbn [bind fst snd] in *; try reflexivity;
             rewrite (IHb ra (bind_defined _ _ Hd)); reflexivity).
   (* Alt *)
-  all: try (rewrite (IHa s (match_defined _ (fun x => Ok x) _ Hd)); destruct (denote _ a s) as [[ta ra]| |]; try reflexivity; apply IHb; exact Hd).
+  all: try (rewrite (IHa s (match_defined _ _ _ Hd)); destruct (denote _ a s) as [[ta ra]| |]; try reflexivity; apply IHb; exact Hd).
   (* Many0 *)
   all: try (apply many_loop_ext; [intros s' Hs'; apply IHp; exact Hs'|exact Hd]).
   (* Many1 / SepBy1 / Recognize / Map / TakeUntil / TakeExcept / VerifyEq: bind on p first *)
@@ -63,12 +63,12 @@ Proof.
             first [ apply many_loop_ext; [intros s' Hs'; apply IHp; exact Hs'|exact Hd]
                   | apply sep_loop_ext; [intros s' Hs'; apply IHsp; exact Hs'|intros s' Hs'; apply IHp; exact Hs'|exact Hd] ]).
   (* Opt *)
-  all: try (rewrite (IHp s (match_defined _ (fun x => Ok (TSome (fst x), snd x)) _ Hd)); reflexivity).
+  all: try (rewrite (IHp s (match_defined _ _ _ Hd)); reflexivity).
   (* SepBy0 *)
-  all: try (match type of Hd with defined (match denote ?ff p s with _ => _ end) =>
-              assert (Hp : defined (denote ff p s)) by (intros E; rewrite E in Hd; apply Hd; reflexivity) end;
-            rewrite (IHp s Hp); destruct (denote _ p s) as [[tp rp]| |]; try reflexivity;
-            apply sep_loop_ext; [intros s' Hs'; apply IHsp; exact Hs'|intros s' Hs'; apply IHp; exact Hs'|exact Hd]).
+  all: try (match goal with Hd' : defined (match denote ?ff ?pp ?ss with _ => _ end) |- _ =>
+              assert (Hp : defined (denote ff pp ss)) by (intros E; rewrite E in Hd'; apply Hd'; reflexivity);
+              rewrite (IHp ss Hp); destruct (denote ff pp ss) as [[tp rp]| |]; try reflexivity;
+              apply sep_loop_ext; [intros s' Hs'; apply IHsp; exact Hs'|intros s' Hs'; apply IHp; exact Hs'|exact Hd'] end).
   (* NT *)
   - exfalso. apply Hd. reflexivity.
   - apply IHf. exact Hd.
